@@ -196,8 +196,9 @@ def rule(program, rep, rule_id, modules, floor=1, domains=None):
     """Report the SWAP / DROP findings of ``modules`` under ``rule_id``,
     and the defaults chosen by a truth test that replace a caller's falsy
     value (FALSY, see falsy.py)."""
-    from . import falsy
+    from . import falsy, stale
     falsy.rule(program, rep, rule_id, modules, domains)
+    stale.rule(program, rep, rule_id, modules)
     res = check(program, modules)
     for m in modules:
         if m in program.modules:
